@@ -327,12 +327,43 @@ def generate(repo, emit, src, func_body):
           and re.search(r'return\s+header_init\(\(struct Header\*\)\(\s*\(char\*\)item\s*\+\s*2\s*\*\s*sizeof\(var\)\),\s*l->type,', li)
           and len(re.findall(r'l->tsize\s*=\s*size\(l->type\);', li)) == len(re.findall(r'l->tsize\s*=', li)))
     tr = src('src/Tree.c')
+    # The key size enters the node layout at four sites: the calloc and the value's header_init in Tree_Alloc, the
+    # accessor Tree_Val, and the node copy in Tree_Rem.  Each may use m->ksize or a local rounded up to sizeof(var);
+    # which one is emitted per site (hdr_tree_*_kround) and the layout theorem demands that they agree.
+    KS = r'(m->ksize|[A-Za-z_]\w*)'
+
+    def kround(fn_body, expr):
+        """False: m->ksize itself; True: a local defined as <...Round...>(m->ksize); None: unrecognised"""
+        if expr is None:
+            return None
+        if expr == 'm->ksize':
+            return False
+        if fn_body and re.search(r'size_t\s+%s\s*=\s*\w*[Rr]ound\w*\(\s*m->ksize\s*\)\s*;' % re.escape(expr), fn_body):
+            return True
+        return None
+
+    def grp(m):
+        return m.group(1) if m else None
+
+    ta_b = func_body(tr, r'static\s+var\s+Tree_Alloc\s*\(\s*struct\s+Tree\*\s*m\s*\)\s*\{')
+    tv_b = func_body(tr, r'static\s+var\s+Tree_Val\s*\([^)]*\)\s*\{')
+    trm_b = func_body(tr, r'static\s+void\s+Tree_Rem\s*\([^)]*\)\s*\{')
+    sites4 = {
+        'hdr_tree_alloc_block_kround': kround(ta_b, grp(ta_b and re.search(
+            r'var\s+node\s*=\s*calloc\(1,\s*3\s*\*\s*sizeof\(var\)\s*\+\s*%s\s*\+\s*%s\s*\+\s*%s\s*\+\s*m->vsize\);' % (H, KS, H), ta_b))),
+        'hdr_tree_alloc_vhead_kround': kround(ta_b, grp(ta_b and re.search(
+            r'var\s+val\s*=\s*header_init\(\(struct Header\*\)\(\s*\(char\*\)node\s*\+\s*3\s*\*\s*sizeof\(var\)\s*\+\s*%s\s*\+\s*%s\),\s*m->vtype,' % (H, KS), ta_b))),
+        'hdr_tree_val_kround': kround(tv_b, grp(tv_b and re.search(
+            r'return\s+\(char\*\)node\s*\+\s*3\s*\*\s*sizeof\(var\)\s*\+\s*%s\s*\+\s*%s\s*\+\s*%s;' % (H, KS, H), tv_b))),
+        'hdr_tree_rem_copy_kround': kround(trm_b, grp(trm_b and re.search(
+            r'memcpy\(\s*\(char\*\)\w+\s*\+\s*3\s*\*\s*sizeof\(var\),\s*\(char\*\)\w+\s*\+\s*3\s*\*\s*sizeof\(var\),\s*%s\s*\+\s*%s\s*\+\s*%s\s*\+\s*m->vsize\);' % (H, KS, H), trm_b))),
+    }
+    for nm, v in sites4.items():
+        emit(nm, ('Definition %s : bool := %s.' % (nm, 'true' if v else 'false')) if v is not None else None)
     shape('hdr_lay_tree',
-          re.search(r'var\s+node\s*=\s*calloc\(1,\s*3\s*\*\s*sizeof\(var\)\s*\+\s*%s\s*\+\s*m->ksize\s*\+\s*%s\s*\+\s*m->vsize\);' % (H, H), tr)
+          all(v is not None for v in sites4.values())
           and re.search(r'var\s+key\s*=\s*header_init\(\(struct Header\*\)\(\s*\(char\*\)node\s*\+\s*3\s*\*\s*sizeof\(var\)\),\s*m->ktype,', tr)
-          and re.search(r'var\s+val\s*=\s*header_init\(\(struct Header\*\)\(\s*\(char\*\)node\s*\+\s*3\s*\*\s*sizeof\(var\)\s*\+\s*%s\s*\+\s*m->ksize\),\s*m->vtype,' % H, tr)
           and re.search(r'static\s+var\s+Tree_Key\([^)]*\)\s*\{\s*return\s+\(char\*\)node\s*\+\s*3\s*\*\s*sizeof\(var\)\s*\+\s*%s;\s*\}' % H, tr)
-          and re.search(r'static\s+var\s+Tree_Val\([^)]*\)\s*\{\s*return\s+\(char\*\)node\s*\+\s*3\s*\*\s*sizeof\(var\)\s*\+\s*%s\s*\+\s*m->ksize\s*\+\s*%s;\s*\}' % (H, H), tr)
           and len(re.findall(r'm->ksize\s*=\s*size\(m->ktype\);', tr)) == len(re.findall(r'm->ksize\s*=', tr))
           and len(re.findall(r'm->vsize\s*=\s*size\(m->vtype\);', tr)) == len(re.findall(r'm->vsize\s*=', tr)))
     ta = src('src/Table.c')
